@@ -611,3 +611,38 @@ Proof.
   intros origin cfg seq1 rs path seenby Ho Wp Wsb Wr.
   exact (announce_intact origin (cut_name cfg) seq1 rs path seenby Ho (proj1 (cut_name_contract cfg)) Wp Wsb Wr).
 Qed.
+
+(** * CIDR networks in every spelling *)
+
+(** for every network net.ParseCIDR can produce (IPv4, IPv6, IPv4-mapped
+    IPv6, any mask, host routes, /0) the wire route is within the limits and
+    the receiver rebuilds exactly the announced (address, ones, bits) triple:
+    both routing tables canonicalise the same net.IPNet *)
+Theorem ipnet_route_roundtrip : forall n metric, ipnet_ok n = true -> metric < 65536 ->
+  wfb Route_c (ipnet_to_route n metric) = true /\
+  route_to_ipnet (ipnet_to_route n metric) = Some n.
+Proof.
+  intros [ip [ones bits]] metric H Hm. unfold ipnet_ok in H. apply orb_prop in H.
+  destruct H as [H|H]; apply andb_prop in H; destruct H as [H Ho]; apply andb_prop in H; destruct H as [Hb Hl];
+    apply N.eqb_eq in Hb, Hl; apply N.leb_le in Ho; subst bits; cbn [ipnet_to_route N.eqb Pos.eqb].
+  - assert (E : ones mod 256 = ones) by (apply N.mod_small; lia). rewrite E. split.
+    + cbn [wfb Route_c depc pairc fst snd]. unfold prefix_body, prefix_length0, fam_ipv4, fam_domain, fam_forward.
+      cbn [N.eqb Pos.eqb wfb u8 u16 uint fixed]. change (256 ^ N.of_nat 1) with 256. change (256 ^ N.of_nat 2) with 65536.
+      repeat (apply andb_true_intro; split); try (apply N.ltb_lt; lia). apply N.eqb_eq. exact Hl.
+    + unfold route_to_ipnet, fam_ipv4. cbn [N.eqb Pos.eqb].
+      destruct ip as [|x ip]; [cbn [lenN] in Hl; lia|]. cbn [is_nil].
+      destruct (ones <=? 32) eqn:E2; [|apply N.leb_gt in E2; lia]. rewrite firstN_all by lia. reflexivity.
+  - assert (E : ones mod 256 = ones) by (apply N.mod_small; lia). rewrite E. split.
+    + cbn [wfb Route_c depc pairc fst snd]. unfold prefix_body, prefix_length0, fam_ipv6, fam_ipv4, fam_domain, fam_forward.
+      cbn [N.eqb Pos.eqb wfb u8 u16 uint fixed]. change (256 ^ N.of_nat 1) with 256. change (256 ^ N.of_nat 2) with 65536.
+      repeat (apply andb_true_intro; split); try (apply N.ltb_lt; lia). apply N.eqb_eq. exact Hl.
+    + unfold route_to_ipnet, fam_ipv4, fam_ipv6. cbn [N.eqb Pos.eqb].
+      destruct ip as [|x ip]; [cbn [lenN] in Hl; lia|]. cbn [is_nil].
+      destruct (ones <=? 128) eqn:E2; [|apply N.leb_gt in E2; lia]. rewrite firstN_all by lia. reflexivity.
+Qed.
+
+(** non-vacuity: ::ffff:10.0.0.0/104 as net.ParseCIDR returns it (16 address bytes, 128-bit mask) *)
+Example mapped_net_example :
+  let n : ipnet := (bytes_of_Ns [0;0;0;0;0;0;0;0;0;0;255;255;10;0;0;0], (104, 128)) in
+  ipnet_ok n = true /\ ipnet_to_route n 3 = (fam_ipv6, (104, (fst n, 3))) /\ route_to_ipnet (ipnet_to_route n 3) = Some n.
+Proof. vm_compute. repeat split. Qed.
